@@ -287,6 +287,14 @@ func (w *c04World) toNextTick(extra time.Duration) {
 
 // c04Run executes one event sequence. Alphabet: g f u a W D p q X.
 func c04Run(e *vh.Env, c c04Case, seq string, bes []*vh.Backend, o *vh.Out) {
+	for i, b := range bes {
+		if b.Lost() {
+			// an earlier history could not get this backend's port back (the history that saw it was flagged): a
+			// fresh backend takes its place
+			b.Close()
+			bes[i] = vh.NewBackend(b.Name)
+		}
+	}
 	for _, b := range bes {
 		b.Reset()
 		b.SetProbe(200, 0)
